@@ -38,10 +38,14 @@ CAL = 1e-6
 GRAV = np.array([0, 0, -9.81])
 
 
+KF_SEPARATING = "Newton-impact-law/separating-contact-in-active-set"
+
+
 def cases(tier, seed):
     n = {"quick": 64, "thorough": 1200}[tier]
     directed = [{"solver": s_, "dt": 2e-2, "forcefree": False, "frictionless": fl, "directed": "resting_with_restitution"} for s_ in SOLVERS for fl in (True, False)]
     directed += [{"solver": s_, "dt": dt_, "forcefree": False, "frictionless": False, "directed": "mixed_resting"} for s_ in SOLVERS for dt_ in (1e-2, 2e-2)]
+    directed += [{"solver": s_, "dt": dt_, "forcefree": True, "frictionless": True, "directed": "wedge"} for s_ in SOLVERS for dt_ in (1.44e-2, 1e-2)]
     return directed + [{"solver": SOLVERS[i % 4], "dt": DTS[(i // 4) % 3], "forcefree": (i // 12) % 3 == 2, "frictionless": (i // 12) % 3 != 0} for i in range(n)]
 
 
@@ -52,6 +56,25 @@ def _scene(rng, spec):
     from cardillo.forces import Force
     S = System()
     info = {"spheres": [], "planes": 1}
+    if spec.get("directed") == "wedge":
+        # a ball bouncing into the corner of an acute wedge of two fixed frictionless planes with DIFFERENT restitution
+        # coefficients, no applied forces (impacts against two contacts in the same or in consecutive steps)
+        th = float(rng.uniform(0.6, 1.3))
+        nB = np.array([0.0, np.sin(th), -np.cos(th)])
+        t1w = np.array([1.0, 0, 0])
+        planeA = Frame(A_IB=np.eye(3), name="ground")
+        planeB = Frame(A_IB=np.vstack((t1w, np.cross(nB, t1w), nB)).T, name="wall")
+        R, m = 0.1, float(loguniform(rng, 0.3, 3))
+        mid = np.array([0.0, np.cos(th / 2), np.sin(th / 2)])
+        pos = mid * (R + float(rng.uniform(0.03, 0.15))) / np.sin(th / 2) + np.array([float(rng.normal()) * 0.1, 0, 0])
+        vel = -mid * float(rng.uniform(0.5, 2)) + np.array([0.0, rng.normal(), rng.normal()]) * 0.3
+        eA, eB = float(rng.uniform(0.05, 0.3)), float(rng.uniform(0.8, 1.0))
+        if rng.random() < 0.5:
+            eA, eB = eB, eA
+        b = PointMass(m, q0=pos, u0=vel, name="s0")
+        S.add(planeA, planeB, b, Sphere2Plane(planeA, b, 0.0, r=R, e_N=eA, name="c_s0_p0"), Sphere2Plane(planeB, b, 0.0, r=R, e_N=eB, name="c_s0_p1"))
+        info.update({"planes": 2, "e_N": [eA, eB], "distinct_e_N": True, "mu": 0.0, "start": "wedge", "tilt": 0.0, "wedge_angle": th, "spheres": ["pm"]})
+        return S, info
     tilt = float(rng.uniform(0, 0.4)) if rng.random() < 0.4 and not spec["forcefree"] else 0.0
     if spec.get("directed"):
         tilt = 0.0
@@ -286,7 +309,8 @@ def run_case(spec, ctx):
                 if E_prev is None:
                     E_prev = 0.5 * un @ dense(S.M(tn, qn)) @ un
                 if E > E_prev * (1 + 1e-9) + 1e-12:
-                    ctx.violation(f"{solver}.solve", "kinetic energy increases in a force-free frictionless scene with restitution <= 1", {**ex, "E_before": float(E_prev), "E_after": float(E)})
+                    ctx.violation(f"{solver}.solve", "kinetic energy increases in a force-free frictionless scene with restitution <= 1", {**ex, "E_before": float(E_prev), "E_after": float(E)},
+                                  key=KF_SEPARATING if info.get("distinct_e_N") else None)
                 E_prev = E
             # advance the path-dependent state of the evaluation copy exactly as the solver did after this step
             S.step_callback(tn1, qn1.copy(), un1.copy())
